@@ -75,6 +75,17 @@ func (hw *httpsWorld) handler(w http.ResponseWriter, r *http.Request) {
 		}
 	}
 	switch c.transport {
+	case "absurdLength":
+		hj, ok := w.(http.Hijacker)
+		if !ok {
+			panic("no hijacker")
+		}
+		conn, buf, _ := hj.Hijack()
+		fmt.Fprintf(buf, "HTTP/1.1 200 OK\r\nContent-Length: 9223372036854775807\r\nContent-Type: application/json\r\n\r\n")
+		buf.Write(c.payload)
+		buf.Flush()
+		conn.Close()
+		return
 	case "shortBody", "resetInBody":
 		hj, ok := w.(http.Hijacker)
 		if !ok {
